@@ -242,6 +242,16 @@ func (g *Gen) specTypeByName(name string, pkg *types.Package) types.Type {
 		return nil
 	}
 	if pkg != nil {
+		if i := strings.Index(name, "."); i > 0 {
+			for _, imp := range pkg.Imports() {
+				if imp.Name() == name[:i] {
+					if tn, ok := imp.Scope().Lookup(name[i+1:]).(*types.TypeName); ok {
+						return tn.Type()
+					}
+				}
+			}
+			return nil
+		}
 		if o := pkg.Scope().Lookup(name); o != nil {
 			if tn, ok := o.(*types.TypeName); ok {
 				return tn.Type()
@@ -325,6 +335,11 @@ func (g *Gen) evalSpec(e *E, cx *Ctx) Val {
 				return Val{T: x.T, C: []Term{{app("bvnot", x.C[0].S), x.C[0].Sort}}}
 			}
 			oos("^ on mathematical integer")
+		case "*":
+			if pt, ok := x.T.Underlying().(*types.Pointer); ok {
+				return g.loadAddrPure(cx.st, g.refAddr(x.C[0], pt.Elem()))
+			}
+			oos("dereference of non-pointer in spec")
 		}
 	case "bin":
 		return g.specBin(e, cx)
@@ -1127,6 +1142,11 @@ func (g *Gen) applyDeclaredSpec(sf *SpecFunc, args []Val, cx *Ctx, pkg *types.Pa
 		}
 		g.emitAxiomsFor(sf.Name)
 	}
+	if hp := g.specHeap[sf.Name]; hp != nil {
+		for i, t := range hp.terms {
+			flat = append(flat, g.famTerm(cx.st, hp.fams[i], t.Sort))
+		}
+	}
 	var as []string
 	if sf.Rec && !sf.Uninter {
 		// fuel-limited unfolding (Dafny style): two unfoldings at use sites, one less inside the definition
@@ -1177,12 +1197,19 @@ func (g *Gen) defineRecSpec(sf *SpecFunc, name, rsort string, pkg *types.Package
 		}
 		vars[p.Name] = v
 	}
-	ncx := &Ctx{st: &State{heap: map[string]Term{}, cells: map[*ssa.Alloc][]Term{}}, vars: vars, oldV: vars, pkg: pkg}
+	hp := &heapParams{}
+	ncx := &Ctx{st: &State{heap: map[string]Term{}, cells: map[*ssa.Alloc][]Term{}, params: hp}, vars: vars, oldV: vars, pkg: pkg}
 	ncx.old = ncx.st
 	mark := len(g.lines)
 	g.recSpec = sf
 	body := g.evalSpec(sf.Body, ncx)
 	g.recSpec = nil
+	if len(hp.fams) > 0 {
+		if sf.Rec {
+			oos("recursive spec function %s reads the heap", sf.Name)
+		}
+		g.specHeap[sf.Name] = hp
+	}
 	if len(g.lines) != mark {
 		// definitions emitted while evaluating the body would be out of scope; keep them (they are closed terms)
 	}
@@ -1196,6 +1223,11 @@ func (g *Gen) defineRecSpec(sf *SpecFunc, name, rsort string, pkg *types.Package
 			names = append(names, t.S)
 			sorts = append(sorts, t.Sort)
 		}
+	}
+	for _, t := range hp.terms {
+		names = append(names, t.S)
+		sorts = append(sorts, t.Sort)
+		decls = append(decls, fmt.Sprintf("(%s %s)", t.S, t.Sort))
 	}
 	if sf.Rec {
 		if !g.fuelDecl {
